@@ -470,7 +470,12 @@ class C17(KProp):
             "already failed in the line loop (a failed prefix is kept once, plus a random sample of its extensions); random "
             "UTF-8 keyrings with exotic white space, line terminators, '=' placement, prefix look-alikes, names of 127/128/129 "
             "bytes; every single-character corruption of an encoded public key; lookups by name/key; serialize_key outputs "
-            "parsed back; non-trivial = distinct driver lines other than the empty text")
+            "parsed back; real 'key generate' processes (-o fresh file / -o existing keyring / standard output) whose prompt is answered "
+            "with a name inside every kind of white space (each char::is_whitespace character, ASCII and not), blank-only answers, "
+            "look-alikes that are not white space, blanks inside, 127..129-byte names inside white space, LF / CRLF / no line end / "
+            "further lines: what was written (the Name and PublicKey lines) must parse back to exactly that, be found by name, and "
+            "(sampled) encrypt and decrypt under the written name; 8 of these runs compared with the CLI model (trim = str::trim); "
+            "non-trivial = distinct driver lines other than the empty text")
     assumptions = ["ct-codecs base64 is specified in Spec/Base64.v and compared, not proved equal",
                    "well-formedness of key strings on acceptance is judged with Python's base64 (lenient on trailing bits)"]
 
@@ -816,6 +821,152 @@ class C17(KProp):
             cases += self.lookup_cases(text, list(m), [m[0][0], b"nobody"], [m[-1][1], K["P3"]])[:4]
         return cases
 
+    # ---------------- what `key generate` writes for a name AS TYPED AT ITS PROMPT parses back (real processes)
+    def prompt_answers(self, ctx):
+        """answers to the name prompt: a name with every kind of white space (char::is_whitespace, ASCII and not) before / after it,
+        blank-only answers, zero-width / format look-alikes at the ends, blanks inside, the 128-byte limit reached only after trimming"""
+        rng = ctx.rng
+        bases = ["carol", "erin", "k\u00e9y", "\u5c71\u7530", "Bob B", "x=y"]
+        A = []
+        for ws in UNI_WS + ASCII_WS + ["\t"]:
+            forms = [ws + "%s", "%s" + ws, ws + "%s" + ws]
+            for f in (forms if ctx.thorough() else [rng.choice(forms)]):
+                A.append(("white space U+%04X around the name" % ord(ws), f % rng.choice(bases)))
+        for z in UNI_NOT_WS:
+            A.append(("U+%04X (not white space) at the ends" % ord(z), rng.choice([z + "%s", "%s" + z, z + "%s" + z]) % rng.choice(bases)))
+        for b_ in ["\u3000", "\u00a0\u2003", " \t ", "\u0085", "\u2028\u2029", "", "\u200a\u205f\u202f\u1680", "\u200b", "\ufeff"]:
+            A.append(("blank-only answer", b_))
+        for n_ in blank_names(rng, 12 if ctx.thorough() else 5):
+            A.append(("blanks inside, white space around", pad_ws(rng, n_)))
+        e = "\u00e9"
+        for core in ("e" * 128, e * 64, "e" * 129, e * 64 + "a", "e" * 127):
+            A.append(("%d-byte name inside white space" % len(core.encode("utf-8")), pad_ws(rng, core, UNI_WS)))
+        return A
+
+    def prompt_writeback(self, ctx):
+        rng = ctx.rng
+        ks = make_keys(ctx, 1)
+        old = key_block(b"old1", ks[0][2], lock_keys([(ks[0][0], b"oldpw", ctx.rbytes(32))])[0])
+        ends = [b"\n", b"\r\n", b"", b"\nnext line\n"]
+        jobs = []
+        for i, (what, typed) in enumerate(self.prompt_answers(ctx)):
+            jobs.append({"i": i, "what": what, "typed": typed, "stdin": typed.encode("utf-8") + ends[i % len(ends)], "mode": ["fresh", "existing", "stdout"][i % 3],
+                         "pw": rng.choice([b"", b"pw", "p\u00e4ss \u2713".encode("utf-8")]), "use": ctx.thorough() or i % 3 == 0, "pt": ctx.rbytes(50)})
+        w = World(prefix="kv_c17_")
+
+        def one(j):
+            f = "kr%d.txt" % j["i"]
+            before = b""
+            if j["mode"] == "existing":
+                before = old
+                w.write(f, old)
+            r = gen_key_fed(w, [j["stdin"]], j["pw"], outfile=None if j["mode"] == "stdout" else f)
+            after = w.read(f) if j["mode"] != "stdout" else (r.out if r.rc == 0 else None)
+            if j["mode"] == "stdout" and r.rc == 0:
+                w.write(f, r.out)                        # kestrel key generate > F
+            j.update(run=r, before=before, after=after, f=f)
+            return j
+        try:
+            with ThreadPoolExecutor(max_workers=NPROC) as ex:
+                jobs = list(ex.map(one, jobs))
+            ctx.evaluations += len(jobs)
+            ops, idx = [], []
+            for j in jobs:
+                j["written"] = None
+                if j["run"].rc == 0 and j["after"] is not None and j["after"].startswith(j["before"]):
+                    new = j["after"][len(j["before"]):]
+                    nl = [l[len(b"Name = "):] for l in new.split(b"\n") if l.startswith(b"Name = ")]
+                    pl_ = [l[len(b"PublicKey = "):] for l in new.split(b"\n") if l.startswith(b"PublicKey = ")]
+                    if len(nl) == 1 and len(pl_) == 1:
+                        j["written"] = (nl[0], pl_[0])
+                        idx.append(j)
+                        ops += ["kr_parse " + hexs(j["after"]), "kr_get %s %s" % (hexs(j["after"]), hexs(nl[0]))]
+            res = cli_ops(ops)
+            for k, j in enumerate(idx):
+                j["parse"], j["get"] = res[2 * k], res[2 * k + 1]
+
+            def use(j):
+                # the key is usable under the name that was written: it signs and receives a message
+                if j["written"] is None or not j["use"]:
+                    return None
+                try:
+                    nm = j["written"][0].decode("utf-8")
+                except UnicodeDecodeError:
+                    return None
+                w.write("pt%d" % j["i"], j["pt"])
+                e = w.run(["encrypt", "pt%d" % j["i"], "-t", nm, "-f", nm, "-o", "ct%d" % j["i"], "-k", j["f"], "--env-pass"], env=env_pw(j["pw"]))
+                d = w.run(["decrypt", "ct%d" % j["i"], "-t", nm, "-o", "out%d" % j["i"], "-k", j["f"], "--env-pass"], env=env_pw(j["pw"]))
+                return (e, d, w.read("out%d" % j["i"]))
+            with ThreadPoolExecutor(max_workers=NPROC) as ex:
+                used = list(ex.map(use, jobs))
+            for j, u in zip(jobs, used):
+                r = j["run"]
+                sc = "C17 key generate (%s), prompt answered with %s: %r + %r" % (
+                    {"fresh": "-o F, F absent", "existing": "-o F, F holds one key", "stdout": "to standard output"}[j["mode"]], j["what"],
+                    j["typed"], j["stdin"][len(j["typed"].encode("utf-8")):])
+                self.count(ctx, "prompt:" + ("look-alike, not white space, at the ends" if "not white space" in j["what"] else j["what"].split(" U+")[0].split("-byte")[-1].strip()))
+                self.count(ctx, "prompt:" + ("accepted" if r.rc == 0 else "refused"))
+                exp = typed_name_expect(j["stdin"])
+
+                def bad(expected, observed, runs=(r,)):
+                    ctx.violations.append({"input": {"kind": "proc", "scenario": sc, "commands": [x.describe() for x in runs],
+                                                     "name_by_str_trim": exp[1] if exp[0] == "ok" else "refused: " + exp[1]},
+                                           "expected": expected, "observed": observed, "finding_key": None})
+                ctx.oracle_checks += 1
+                if r.rc not in (0, 1):
+                    bad("key generation succeeds or reports an error (exit 0 / 1)", "exit %d: %r" % (r.rc, r.errtext()[-200:]))
+                    continue
+                if r.rc != 0:
+                    continue                     # refused: nothing was written (C13 looks at the output path)
+                if j["written"] is None:
+                    bad("an accepted name: the tool writes one [Key] section with one Name and one PublicKey line behind the earlier contents",
+                        "written: %r" % (j["after"] if j["after"] is None else j["after"][len(j["before"]):][:200]))
+                    continue
+                name, pub = j["written"]
+                pr, g = j["parse"], j["get"]
+                ctx.oracle_checks += 3
+                if pr.get("outcome") != "ok":
+                    bad("every keyring the tool itself writes parses (the tool wrote 'Name = %s')" % name.decode("utf-8", "replace"),
+                        "the parser refuses it: %s" % unhex(pr.get("msg", "-")).decode("utf-8", "replace"))
+                    continue
+                names = [unhex(x) for x in pr["names"].split(",")]
+                pubs = [unhex(x) for x in pr["pubs"].split(",")]
+                want = ([b"old1"] if j["mode"] == "existing" else []) + [name]
+                if names != want or pubs[-1] != pub:
+                    bad("the keyring the tool wrote parses back to the names and keys that were written: names %r, last public key %r" % (want, pub),
+                        "names %r, last public key %r" % (names, pubs[-1]))
+                    continue
+                if g.get("outcome") != "ok" or unhex(g.get("pub", "-")) != pub:
+                    bad("a lookup by the written name %r finds the written key" % name, "kr_get: %s" % g.get("outcome"))
+                    continue
+                if u is not None:
+                    e, d, out = u
+                    ctx.oracle_checks += 1
+                    if not (e.rc == 0 and d.rc == 0 and out == j["pt"]):
+                        bad("the generated key is usable under the name that was written (encrypt to / from it, decrypt)",
+                            "exit %d/%d, plaintext equal: %s, stderr %r" % (e.rc, d.rc, out == j["pt"], (e.errtext() + d.errtext())[-200:]), runs=(r, e, d))
+            self.count(ctx, "proc:runs", w.nruns)
+        finally:
+            w.close()
+        # the same prompt against the CLI model (Model/Cli.v::ask_user_stdin = trim (take_line stdin), is_ws = char::is_whitespace):
+        # which answers are accepted, and the exact bytes written
+        model_cli_part(ctx, self.prompt_model_cases)
+
+    def prompt_model_cases(self, ctx, mw, root):
+        rng = ctx.rng
+        A = self.prompt_answers(ctx)
+        pick = [a for a in A if a[0].startswith("white space U+") and int(a[0][len("white space U+"):][:4], 16) > 127]
+        sel = rng.sample(pick, 4 if not ctx.thorough() else 10) + [a for a in A if a[0] == "blank-only answer"][:(2 if not ctx.thorough() else 9)] \
+            + [a for a in A if "-byte name" in a[0]][:(2 if not ctx.thorough() else 5)]
+        ends = [b"\n", b"\r\n", b"", b"\nnext line\n"]
+        out = []
+        for i, (what, typed) in enumerate(sel):
+            fs = {"F": mw.block["alice"]} if i % 2 else {}
+            out.append(CliCase("generate into F (%s), prompt answered with %s" % ("one key" if fs else "absent", what), ["key", "generate", "-o", "F", "--env-pass"],
+                               fs, pw=rng.choice([b"pw", b""]), stdin=typed.encode("utf-8") + ends[i % 4], rnd=ctx.rbytes(64), watch=["F"],
+                               tags=["model:prompt-" + what.split(" U+")[0].split("-byte ")[-1]], oracle=no_stray))
+        return out
+
     def setup(self, ctx):
         ks = make_keys(ctx, 6)
         S = lock_keys([(ks[0][0], b"pw", ctx.rbytes(32)), (ks[1][0], b"", ctx.rbytes(32)), (ks[3][0], b"x", ctx.rbytes(32)),
@@ -843,6 +994,7 @@ class C17(KProp):
             es = c.result["entries"]
             more += self.lookup_cases(c.a["text"], es, [es[0][0], es[-1][0] + b"x"], [es[-1][1]] + [p for p in (self.K["P1"], self.K["P2"], self.K["P3"]) if all(e[1] != p for e in es)][:1])
         self.run_kcases(ctx, more, tag="C17l")
+        self.prompt_writeback(ctx)
         ctx.search_note = "direct oracle over all %d cases" % ctx.evaluations
 
 
@@ -1413,6 +1565,143 @@ props.REGISTRY[C16.id] = C16()
 GEN_NAMES = ["alice", "Bob B", "carol", "dave", "k\u00e9y \U0001F511", "x=y", "# hash", "e" * 128, "\u00fc" * 64, "z z z", "[Key]", "Name = n"]
 
 
+# ---- the key-name prompt: what is typed, how it reaches the program, what name results ------------------------------
+import select as _select, time as _time
+
+# char::is_whitespace blanks other than the ASCII ones, and blank-LOOKING characters that are NOT white space for Rust
+UNI_WS = ["\u0085", "\u00a0", "\u1680", "\u2000", "\u2001", "\u2002", "\u2003", "\u2004", "\u2005", "\u2006", "\u2007", "\u2008",
+          "\u2009", "\u200a", "\u2028", "\u2029", "\u202f", "\u205f", "\u3000"]
+ASCII_WS = [" ", "\r", "\u000b", "\u000c"]            # TAB is refused inside a name, LF ends the line
+UNI_NOT_WS = ["\u200b", "\ufeff", "\u180e", "\u2060", "\u00ad", "\u001c", "\u001f", "\u200e", "\u2800"]
+
+
+def typed_name_expect(data):
+    """the name `key generate` works with when its standard input carries `data` (commands.rs::ask_user_stderr = read_line +
+    str::trim, then valid_key_name; Model/Cli.v::ask_user_stdin): the FIRST line only - up to the first LF or the end of input -
+    decoded as UTF-8 and trimmed of char::is_whitespace characters.  -> ('ok', name) | ('refused', why)"""
+    line = data.split(b"\n", 1)[0]
+    try:
+        s = line.decode("utf-8")
+    except UnicodeDecodeError:
+        return ("refused", "the line is not UTF-8")
+    n = rust_trim(s)
+    if not n:
+        return ("refused", "empty name")
+    if len(n.encode("utf-8")) > 128:
+        return ("refused", "name of %d bytes" % len(n.encode("utf-8")))
+    if "\t" in n:
+        return ("refused", "TAB inside the name")
+    return ("ok", n)
+
+
+def run_fed(world, argv, env, chunks, gap=0.1, prompt=b"Key name: ", timeout=120):
+    """like World.run with stdin a PIPE that is fed the way a slow writer feeds it: the program is started, the feeder waits until
+    the prompt has appeared on stderr (the program is then at, or about to enter, its read of stdin), then performs ONE write(2) per
+    chunk, `gap` seconds apart, and closes the pipe.  A reader that takes a line sees the same line however it is cut."""
+    e = {"PATH": "/usr/bin:/bin", "HOME": world.dir, "LANG": "C.UTF-8"}
+    if env:
+        e.update(env)
+    pr = subprocess.Popen([world.bin] + list(argv), env=e, stdin=subprocess.PIPE, stdout=subprocess.PIPE, stderr=subprocess.PIPE,
+                          start_new_session=True, cwd=world.dir, bufsize=0)
+    seen = b""
+    t0 = _time.time()
+    fd = pr.stderr.fileno()
+    while prompt and prompt not in seen and _time.time() - t0 < 20:
+        r, _, _ = _select.select([fd], [], [], 0.5)
+        if r:
+            b = os.read(fd, 4096)
+            if not b:
+                break
+            seen += b
+    try:
+        for i, ch in enumerate(chunks):
+            if i:
+                _time.sleep(gap)
+            if ch:
+                os.write(pr.stdin.fileno(), ch)
+    except (BrokenPipeError, OSError):
+        pass                      # the program has finished with its input and gone
+    try:
+        pr.stdin.close()
+    except OSError:
+        pass
+    pr.stdin = None
+    try:
+        out, err = pr.communicate(timeout=timeout)
+        rc = pr.returncode
+    except subprocess.TimeoutExpired:
+        pr.kill()
+        out, err = pr.communicate()
+        rc, err = 124, (err or b"") + b"\n[timeout]"
+    world.nruns += 1
+    shown = b" | ".join(chunks)
+    return Run(list(argv), dict(env or {}), "%d write(s), %.0f ms apart: %s" % (len(chunks), gap * 1000, " | ".join(c.hex() for c in chunks)) if len(chunks) > 1 else shown,
+               rc, out or b"", seen + (err or b""))
+
+
+def gen_key_fed(world, chunks, pw, outfile=None, gap=0.1, decoy=False, rand=None):
+    """kestrel key generate with the answer to the name prompt delivered as the given writes"""
+    argv = ["key", "generate"] + (["-o", outfile] if outfile else []) + ["--env-pass"]
+    env = env_pw(pw, DECOY_NEW_PASSWORD if decoy else None)
+    if rand is not None:
+        env["KESTREL_VERIF_RANDOM"] = rand.hex()
+    return run_fed(world, argv, env, chunks, gap=gap)
+
+
+def cut_points_utf8(b):
+    """offsets strictly inside a multi-byte UTF-8 sequence of b"""
+    return [i for i in range(1, len(b)) if b[i] & 0xC0 == 0x80]
+
+
+def name_deliveries(rng, line, thorough=False):
+    """ways one answer `line` (bytes, no LF) to the name prompt can reach the program: [(label, chunks, gap)].  The first LF ends
+    the answer; what follows it belongs to whoever reads next."""
+    tails = [b"bob@example.org\n", b"second line\nthird line\n", b"\n\n", "\u3000zw\u00f6lf\n".encode("utf-8"), b"[Key]\nName = intruder\n",
+             b"x" * 700 + b"\n"]
+    nl = line + b"\n"
+    D = [("one write, LF", [nl], 0), ("one write, no line end, then end of input", [line], 0), ("one write, CRLF", [line + b"\r\n"], 0),
+         ("one write, several lines", [nl + rng.choice(tails)], 0), ("one write, several CRLF lines", [line + b"\r\n" + rng.choice(tails).replace(b"\n", b"\r\n")], 0),
+         ("name | LF", [line, b"\n"], 0.12), ("name CR | LF", [line + b"\r", b"\n"], 0.12),
+         ("line | further lines", [nl, rng.choice(tails)], 0.05)]
+    if len(line) >= 2:
+        k = rng.randint(1, len(line) - 1)
+        D.append(("two writes, cut at byte %d" % k, [line[:k], line[k:] + b"\n"], 0.12))
+        k1, k2 = sorted(rng.sample(range(1, len(line) + 1), 2)) if len(line) >= 3 else (1, 2)
+        D.append(("three writes, then end of input", [line[:k1], line[k1:k2], line[k2:]], 0.08))
+    cuts = cut_points_utf8(line)
+    if cuts:
+        k = rng.choice(cuts)
+        D.append(("two writes, cut inside a UTF-8 sequence at byte %d" % k, [line[:k], line[k:] + b"\n"], 0.12))
+        D.append(("two writes, cut inside a UTF-8 sequence, several lines", [line[:k], line[k:] + b"\n" + rng.choice(tails)], 0.12))
+    if len(nl) <= (40 if thorough else 16):
+        D.append(("one byte per write", [nl[i:i + 1] for i in range(len(nl))], 0.012))
+    return D
+
+
+def blank_names(rng, n):
+    """n distinct key names (1..128 bytes, none equal to another after removing every blank) with Unicode blanks INSIDE: white-space
+    characters of every kind and zero-width / format look-alikes.  They are legal names; the parser may only trim the ends."""
+    words = ["Ana", "Maria", "\u5c71\u7530", "\u592a\u90ce", "k\u00e9y", "\U0001F511", "x", "Yo", "=", "#1", "van", "der", "Z"]
+    out, keys = [], set()
+    while len(out) < n:
+        k = rng.randint(2, 4)
+        ws = [rng.choice(words) for _ in range(k)]
+        s = ws[0]
+        for w_ in ws[1:]:
+            s += rng.choice(UNI_WS + UNI_WS + UNI_NOT_WS + ASCII_WS) * rng.choice([1, 1, 1, 2]) + w_
+        key = "".join(ch for ch in s if ch not in UNI_WS + UNI_NOT_WS + ASCII_WS)
+        if len(s.encode("utf-8")) <= 128 and key not in keys:
+            keys.add(key)
+            out.append(s)
+    return out
+
+
+def pad_ws(rng, name, kinds=None):
+    """what a user may type for `name`: the name with white space (ASCII and Unicode) before and after it"""
+    kinds = kinds or (UNI_WS + ASCII_WS + ["\t"])
+    return "".join(rng.choice(kinds) for _ in range(rng.randint(0, 3))) + name + "".join(rng.choice(kinds) for _ in range(rng.randint(0, 3)))
+
+
 class C14(ProcProp):
     id = "C14"
     rule = ("cases: histories of 1..4 'key generate -o F' (distinct names incl. unicode/128-byte/look-alike names and names that differ "
@@ -1422,6 +1711,11 @@ class C14(ProcProp):
             "keys, a dangling symbolic link}; after every run: exit 0, previous bytes are a prefix, the "
             "file parses (driver kr_parse), all earlier and all generated entries are present in order, every generated key "
             "unlocks with its password to the key whose public key is the PublicKey line; encrypt/decrypt by name; "
+            "names as ANSWERS TO THE PROMPT: Unicode blanks inside the name (every char::is_whitespace character, zero-width / format "
+            "look-alikes), white space typed around it, names that differ only by such a blank, an existing keyring with Unicode "
+            "blanks around heads / keys / values and inside a name; the answer delivered through a pipe in one write, in two or "
+            "three writes cut anywhere (also inside a UTF-8 sequence), one byte per write, without a line end, with CRLF, "
+            "followed by further lines in the same or a later write (the feeder waits for the prompt, then writes); "
             "non-trivial = every run")
     assumptions = ["the histories are judged by direct oracles; in addition every step of 4 (thorough 6) short histories is compared with the CLI "
                    "model (Model/CliGlue.v::real_cli_main with the injected random stream), each step started from the real file of the previous one"]
@@ -1436,7 +1730,13 @@ class C14(ProcProp):
                 ("blank-lines", b"\n\n", []),
                 # F is a symbolic link: the keyring it points to is the file that must keep its keys
                 ("symlink-to-one-key", b1, [b"old1"]), ("symlink-to-two-keys", b1 + b"\n" + b2, [b"old1", b"old2"]),
-                ("symlink-relative-to-one-key", b1, [b"old1"]), ("symlink-dangling", None, [])]
+                ("symlink-relative-to-one-key", b1, [b"old1"]), ("symlink-dangling", None, []),
+                # an existing keyring as pasted from a web page / written with a CJK input method: Unicode blanks around section
+                # heads, keys and values (trimmed by the parser), INSIDE a name (part of the name), in comments and blank lines
+                ("unicode-blanks", ("#\u00a0my\u3000keyring \ufeff\n\u3000\n[Key]\u00a0\n\u2003Name =\u3000old\u2003one\u00a0\nPublicKey\u00a0=\u2009".encode("utf-8")
+                                    + ks[0][2] + "\u3000\n\u200a# end\u2028of file\n\u0085\n".encode("utf-8")
+                                    + key_block("\u200bold\u00a0two\ufeff".encode("utf-8"), ks[1][2], S[1])),
+                 ["old\u2003one".encode("utf-8"), "\u200bold\u00a0two\ufeff".encode("utf-8")])]
 
     def explore(self, ctx):
         rng = ctx.rng
@@ -1459,6 +1759,7 @@ class C14(ProcProp):
                 plans.append({"h": hid, "state": st, "names": names, "pws": [("pw-%d" % i).encode() for i in range(len(names))],
                               "rt": True, "pt": ctx.rbytes(100)})
                 hid += 1
+        plans += self.prompt_plans(ctx, states, hid)
         w = World()
         try:
             recs = self.pmap(lambda pl: self.one_history(w, pl), plans)
@@ -1470,6 +1771,44 @@ class C14(ProcProp):
         ctx.search_note = "direct oracle over %d histories" % len(plans)
         # every generation step against the CLI model, started from the real file of the previous step
         model_cli_part(ctx, c14_model_cases)
+
+    def prompt_plans(self, ctx, states, hid):
+        """histories whose names are ANSWERS TO THE PROMPT in the ways a prompt is answered: (a) names with Unicode blanks inside
+        (white space of every kind, zero-width and format characters), typed with white space around them, names that differ
+        only by such a blank; (b) the answer delivered through a pipe in one write / several writes (cut anywhere, also inside a
+        UTF-8 sequence, one byte at a time) / without a line end / with CRLF / followed by further lines in the same write."""
+        rng = ctx.rng
+        plans = []
+        I3, NB = "\u3000", "\u00a0"
+        fixed = [["\u5c71\u7530" + I3 + "\u592a\u90ce"], ["Ana" + NB + "Maria", "AnaMaria"], ["x" + I3 + "y", "x y", "xy"],
+                 ["a\u200bb", "ab", "a\ufeffb"], ["\ufeffalice", "alice", "alice\u200b"], ["\u200b", "\u2060\u2060"],
+                 ["n\u2009m", "n\u200am", "n\u2002m", "n\u2003m"], ["p\u0085q", "p\u2028q", "p\u000bq"]]
+        nb = 24 if ctx.thorough() else 8
+        bl = blank_names(rng, 3 * nb)
+        groups = fixed + [bl[3 * i:3 * i + rng.randint(1, 3)] for i in range(nb)]
+        plain_states = [st for st in states if not st[0].startswith("symlink")]
+        for gi, names in enumerate(groups):
+            feed = {}
+            for k, nm in enumerate(names):
+                typed = pad_ws(rng, nm) if rng.random() < 0.6 else nm
+                feed[k] = rng.choice(name_deliveries(rng, typed.encode("utf-8"), ctx.thorough()))
+                assert typed_name_expect(b"".join(feed[k][1])) == ("ok", nm), (typed, feed[k])
+            plans.append({"h": hid, "state": plain_states[gi % len(plain_states)], "names": names, "feed": feed, "kind": "blank-names",
+                          "pws": [rng.choice(PROC_PASSWORDS) for _ in names], "rt": True, "pt": ctx.rbytes(rng.choice([1, 1000]))})
+            hid += 1
+        # every way of delivery, for an ASCII name and for a name of multi-byte characters; one history per three deliveries
+        for base in (["caroline", "dmitri", "eve"], ["k\u00e9y \U0001F511 zw\u00f6lf", "\u5c71\u7530\u592a\u90ce", "\u00fc\u00f1\u00ee"]):
+            dl = [name_deliveries(rng, (pad_ws(rng, b_, [" ", "\u00a0", "\t"]) if rng.random() < 0.3 else b_).encode("utf-8"), ctx.thorough()) for b_ in base]
+            m = max(len(d) for d in dl)
+            for j in range(m):
+                names = [b_ for b_, d in zip(base, dl) if j < len(d)]
+                feed = {k: d[j] for k, d in enumerate([d for d in dl if j < len(d)])}
+                for k, nm in enumerate(names):
+                    assert typed_name_expect(b"".join(feed[k][1])) == ("ok", nm), (nm, feed[k])
+                plans.append({"h": hid, "state": plain_states[(hid + j) % len(plain_states)], "names": names, "feed": feed, "kind": "delivery",
+                              "pws": [rng.choice(PROC_PASSWORDS) for _ in names], "rt": j % 4 == 0, "pt": ctx.rbytes(100)})
+                hid += 1
+        return plans
 
     def one_history(self, w, pl):
         f = "kr%d.txt" % pl["h"]
@@ -1484,8 +1823,14 @@ class C14(ProcProp):
         elif init is not None:
             w.write(f, init)
         snaps, runs = [init], []
-        for nm, pw in zip(pl["names"], pl["pws"]):
-            r = gen_key(w, nm, pw, outfile=f, decoy=(pl["h"] % 2 == 1))
+        for k, (nm, pw) in enumerate(zip(pl["names"], pl["pws"])):
+            fd = (pl.get("feed") or {}).get(k)
+            if fd is not None:
+                # the answer to the prompt is what `fd` says (white space around the name, a particular sequence of writes); nm is
+                # the name that results (typed_name_expect)
+                r = gen_key_fed(w, fd[1], pw, outfile=f, gap=fd[2], decoy=(pl["h"] % 2 == 1))
+            else:
+                r = gen_key(w, nm, pw, outfile=f, decoy=(pl["h"] % 2 == 1))
             runs.append(r)
             snaps.append(w.read(f))
         rec = {"plan": pl, "snaps": snaps, "runs": runs, "still_link": os.path.islink(w.p(f))}
@@ -1515,6 +1860,12 @@ class C14(ProcProp):
             sc = "C14 history %d: %d x key generate -o F, F initially %s" % (pl["h"], len(pl["names"]), pl["state"][0])
             self.count(ctx, "state:" + pl["state"][0])
             self.count(ctx, "history-len%d" % len(pl["names"]))
+            if pl.get("feed"):
+                sc += "; names as answered at the prompt: " + "; ".join(
+                    "#%d %r <- %s %s" % (k + 1, pl["names"][k], fd[0], [c.hex() for c in fd[1]]) for k, fd in sorted(pl["feed"].items()))
+                self.count(ctx, "prompt:" + pl["kind"])
+                for fd in pl["feed"].values():
+                    self.count(ctx, "prompt-delivery:" + fd[0].split(" at byte")[0])
             runs = rec["runs"]
             for i, r in enumerate(runs):
                 before, after = rec["snaps"][i], rec["snaps"][i + 1]
@@ -3043,6 +3394,14 @@ def c14_model_cases(ctx, mw, root):
         names = rng.sample(["n1", "Bob B", "k\u00e9y \U0001F511", "x=y", "e" * 128, "# h"], lens[i])
         H.append({"state": nm, "files": {} if init is None else {"F": init}, "names": names,
                   "pws": [rng.choice(PROC_PASSWORDS) for _ in names]})
+    # the prompt answered the way users and scripts answer it: names with Unicode blanks inside, white space (ASCII and Unicode)
+    # around them, LF / CRLF / no line end, further lines behind the first (ask_user_stdin = trim (take_line stdin))
+    ends = [b"\n", b"\r\n", b"", b"\nsecond line\nthird\n", b"\r\nbob@example.org\r\n", "\n\u3000\n".encode("utf-8")]
+    for i, (nm, init) in enumerate(states[:4] if ctx.thorough() else [states[0], states[2]]):
+        names = blank_names(rng, 2)
+        H.append({"state": nm + ", prompt answered with blanks", "files": {} if init is None else {"F": init}, "names": names,
+                  "stdin": [pad_ws(rng, n_).encode("utf-8") + ends[(2 * i + k) % len(ends)] for k, n_ in enumerate(names)],
+                  "pws": [rng.choice(PROC_PASSWORDS) for _ in names]})
     out = []
     for step in range(3):
         batch = []
@@ -3050,7 +3409,7 @@ def c14_model_cases(ctx, mw, root):
             if step < len(h["names"]):
                 c = CliCase("generate #%d into F, initially %s" % (step + 1, h["state"]), ["key", "generate", "-o", "F", "--env-pass"],
                             h["files"], pw=h["pws"][step], npw=(DECOY_NEW_PASSWORD if step % 2 == 0 else None),
-                            stdin=h["names"][step].encode("utf-8") + b"\n", rnd=ctx.rbytes(64), watch=["F"],
+                            stdin=(h["stdin"][step] if "stdin" in h else h["names"][step].encode("utf-8") + b"\n"), rnd=ctx.rbytes(64), watch=["F"],
                             tags=["model:generate-%s" % h["state"]], oracle=no_stray)
                 batch.append((h, c))
         exec_cli_cases([c for _, c in batch], os.path.join(root, "s%d" % step))
